@@ -150,3 +150,20 @@ mk bitvec-resize-while src/bits/bit_vec.rs "            for i in self.len..new_l
                 }
                 i += 1;
             }"
+mk fill-extract-helper src/bits/bit_vec.rs "    /// Sets all bits to the given value.
+    pub fn fill(&mut self, value: bool) {
+        let full_words = self.len() / BITS;
+        let residual = self.len % BITS;" "    /// Number of full words and of bits in the last, partial word.
+    #[inline(always)]
+    fn words_and_residual(&self) -> (usize, usize) {
+        (self.len / BITS, self.len % BITS)
+    }
+
+    /// Sets all bits to the given value.
+    pub fn fill(&mut self, value: bool) {
+        let (full_words, residual) = self.words_and_residual();"
+mk indexof-flip-compare src/dict/elias_fano.rs "        if value > self.u {
+            return None;
+        }" "        if self.u < value {
+            return None;
+        }"
